@@ -8,6 +8,7 @@ import (
 	"context"
 	"github.com/onosproject/onos-config/pkg/utils/v3/values"
 	"github.com/openconfig/gnmi/proto/gnmi_ext"
+	"sort"
 	"time"
 
 	controllerutils "github.com/onosproject/onos-config/pkg/controller/utils"
@@ -165,7 +166,14 @@ func (r *Reconciler) reconcileConfiguration(ctx context.Context, config *configa
 		}
 	}
 	log.Infof("Updating %d paths on target '%s'", len(indexedPathValues), config.ID.Target.ID)
-	for transactionIndex, pathValues := range indexedPathValues {
+	// Push the changes in the order in which they were applied: a later change may re-create what an earlier one deleted
+	transactionIndexes := make([]configapi.Index, 0, len(indexedPathValues))
+	for transactionIndex := range indexedPathValues {
+		transactionIndexes = append(transactionIndexes, transactionIndex)
+	}
+	sort.Slice(transactionIndexes, func(i, j int) bool { return transactionIndexes[i] < transactionIndexes[j] })
+	for _, transactionIndex := range transactionIndexes {
+		pathValues := indexedPathValues[transactionIndex]
 		// Create a gNMI set request
 		log.Debugw("Creating Set request for changes in transaction", "TransactionIndex", transactionIndex)
 		setRequest, err := values.PathValuesToGnmiChange(pathValues, config.ID.Target.ID)
